@@ -137,6 +137,16 @@ func (node *Node) processUnconfirmedTx(ctx context.Context, tx handlers.TxData) 
 		}
 
 		if err := fetchSpentOutputs(ctx, node.store, node.outputFetcher, txState); err != nil {
+			if !tx.Trusted {
+				// Anyone can send a tx that spends outputs that don't exist. When it only came from
+				// an untrusted node it is dropped. It must not stop the node.
+				logger.Warn(ctx, "Failed to fetch outputs for untrusted tx : %s : %s", hash, err)
+				if _, err := node.txs.Remove(ctx, *hash, -1); err != nil {
+					return errors.Wrap(err, "Failed to remove from tx repo")
+				}
+				node.memPool.RemoveTransaction(*hash)
+				return nil
+			}
 			return errors.Wrap(err, "fetch outputs")
 		}
 	} else {
